@@ -1,11 +1,80 @@
-(* C03 - The result is a well-formed tree over the input with in-bounds spans.
-   Engine part: what the scan attaches.  The discharge of the precondition (wf_search, in-bounds
-   decoder-supplied children) for the shipped decoders is per decoder (Properties of C10/C12/C13/C16 ...);
-   parent pointers are mutable aliasing outside a value-level model: checked on the implementation side of
-   every correspondence case. *)
+(* C03 - The result is a well-formed tree over the input with in-bounds spans.  Engine part: what the scan attaches, for ANY registry whose hits are in bounds (wf_search).  Registry part (Proofs/DefaultWf.v): that precondition is DISCHARGED for the shipped registry - every shipped decoder except find_powershell_strings reports only in-bounds, non-inverted spans on every input (keyword searchers included), so whole scans with that decoder replaced by any conforming one (or the shell module excluded) have every span in bounds at every level; find_powershell_strings is proved NOT to conform (known finding F6: the test-suite input gives span (68,35)), so the carve-out is exact.  Parent pointers are mutable aliasing outside a value-level model: checked on the implementation side of every correspondence case. *)
 From Coq Require Import Sorting.Sorted.
-From MD Require Import Lib.Base Model.Node Model.Engine Model.Reference.
-From MD Require Import Proofs.EngineRefine Proofs.EngineInv Proofs.EngineDepth.
+From MD Require Import Lib.Base Model.Node Model.Engine Model.Reference Model.EngineR Model.Default Model.Dec.Shell.
+From MD Require Import Proofs.EngineRefine Proofs.EngineInv Proofs.EngineDepth Proofs.DefaultWf.
+
+(* every child the scan attaches lies inside its parent's value, with start < end *)
+Theorem C03_spans : forall (search : bytes -> list node) (d : nat) (n t : node), wf_search search -> n_kids n = [] -> scan_node search (S d) n = Ok t -> n_val t = n_val n /\ Forall (fun c : node => 0 <= n_st c /\ n_st c < n_en c <= blen (n_val t)) (n_kids t) /\ StronglySorted sib_lt (n_kids t).
+Proof. exact scan_children_spans. Qed.
+Print Assumptions C03_spans.
+
+(* ... at every nesting level and every depth: the annotated reference tree (which the engine's tree is the erasure of, C06) satisfies deep_ok *)
+Theorem C03_all_levels : forall search : bytes -> list node, wf_search search -> forall (d : nat) (k : kind) (a b : Z) (n : node) (t : anode), k <> KCtx -> ref_scan_node search d k a b n = Ok t -> deep_ok search d t.
+Proof. exact ref_deep_ok. Qed.
+Print Assumptions C03_all_levels.
+
+(* nothing appears from nowhere: every node attached by a pass carries position, type, value and obfuscation of a hit the registry reported on the searched value *)
+Theorem C03_nodes_from_hits : forall (search : bytes -> list node) (d : nat) (k : kind) (a b : Z) (n : node) (t : anode), n_kids n = [] -> ref_scan_node search (S d) k a b n = Ok t -> forall x : anode, In x (pass_nodes (a_kids t)) -> exists h : node, In h (search (n_val n)) /\ nonempty_val h = true /\ n_st h = a_lo x /\ n_en h = a_hi x /\ n_ty h = n_ty (a_node x) /\ n_val h = n_val (a_node x) /\ n_obf h = n_obf (a_node x).
+Proof. exact attached_from_hit. Qed.
+Print Assumptions C03_nodes_from_hits.
+
+(* the header of a scanned node is never modified, only its child list *)
+Theorem C03_header_kept : forall (search : bytes -> list node) (d : nat) (n t : node), scan_node search d n = Ok t -> exists ks : list node, t = set_kids n ks.
+Proof. exact scan_node_hdr. Qed.
+Print Assumptions C03_header_kept.
+
+(* REGISTRY PART. each of the 29 shipped decoders other than find_powershell_strings: on every input, every reported hit with a non-empty value has 0 <= start < end <= len (pefile oracle: any non-negative size) *)
+Theorem C03_shipped_decoders_in_bounds : forall pe_size : bytes -> Z, (forall b : bytes, 0 <= pe_size b) -> forall (xortool : bytes -> list bytes) (extra : label -> option (bytes -> res (list node))) (name : label), In name strong_names -> strong_ok (decoder_by_name pe_size xortool extra name).
+Proof. exact strong_names_ok. Qed.
+Print Assumptions C03_shipped_decoders_in_bounds.
+
+Theorem C03_keyword_searchers_in_bounds : forall (lbl : label) (kws : list bytes), strong_ok (Keyword.find_keywords lbl kws).
+Proof. exact find_keywords_strong. Qed.
+Print Assumptions C03_keyword_searchers_in_bounds.
+
+(* the whole registry (any keyword directory, any include / exclude) conforms as soon as find_powershell_strings does *)
+Theorem C03_registry_in_bounds : forall pe_size : bytes -> Z, (forall b : bytes, 0 <= pe_size b) -> forall (xortool : bytes -> list bytes) (extra : label -> option (bytes -> res (list node))) (kwdir : Registry.dtree) (inc exc : list label), strong_ok find_powershell_strings -> Forall strong_ok (registry pe_size xortool extra RegistryTable.decoder_modules kwdir inc exc).
+Proof. exact registry_strong_ok_hyp. Qed.
+Print Assumptions C03_registry_in_bounds.
+
+Theorem C03_registry_without_shell : forall pe_size : bytes -> Z, (forall b : bytes, 0 <= pe_size b) -> forall (xortool : bytes -> list bytes) (extra : label -> option (bytes -> res (list node))) (kwdir : Registry.dtree) (inc exc : list label), Registry.mem_label (s2b "shell") exc = true -> Forall strong_ok (registry pe_size xortool extra RegistryTable.decoder_modules kwdir inc exc).
+Proof. exact registry_noshell_strong_ok. Qed.
+Print Assumptions C03_registry_without_shell.
+
+(* ... which is exactly the engine theorems' precondition *)
+Theorem C03_registry_wf_search : forall ds : list (bytes -> res (list node)), Forall strong_ok ds -> wf_search (search_of (run_all ds)).
+Proof. exact run_all_wf_search. Qed.
+Print Assumptions C03_registry_wf_search.
+
+(* whole scan with the shipped registry, find_powershell_strings replaced by ANY conforming decoder: root value = input, children in bounds, sorted *)
+Theorem C03_default_scan_spans : forall pe_size : bytes -> Z, (forall b : bytes, 0 <= pe_size b) -> forall (xortool : bytes -> list bytes) (extra : label -> option (bytes -> res (list node))) (ps : bytes -> res (list node)) (kwdir : Registry.dtree) (depth : Z) (data : bytes) (t : node), strong_ok ps -> 0 < depth -> scan_default_with pe_size xortool extra ps kwdir depth data = Ok t -> n_val t = data /\ Forall (child_span_ok data) (n_kids t) /\ StronglySorted sib_lt (n_kids t).
+Proof. exact default_scan_spans_in_bounds. Qed.
+Print Assumptions C03_default_scan_spans.
+
+Theorem C03_default_scan_all_levels : forall pe_size : bytes -> Z, (forall b : bytes, 0 <= pe_size b) -> forall (xortool : bytes -> list bytes) (extra : label -> option (bytes -> res (list node))) (ps : bytes -> res (list node)) (kwdir : Registry.dtree) (depth : Z) (data : bytes) (t : node), strong_ok ps -> scan_default_with pe_size xortool extra ps kwdir depth data = Ok t -> exists a : anode, ref_scan (search_of (search_default_with pe_size xortool extra ps kwdir)) depth data = Ok a /\ erase a = t /\ deep_ok (search_of (search_default_with pe_size xortool extra ps kwdir)) (Z.to_nat depth) a.
+Proof. exact default_scan_deep_ok. Qed.
+Print Assumptions C03_default_scan_all_levels.
+
+Theorem C03_scan_default_if_ps_conforms : forall pe_size : bytes -> Z, (forall b : bytes, 0 <= pe_size b) -> forall (xortool : bytes -> list bytes) (extra : label -> option (bytes -> res (list node))) (kwdir : Registry.dtree) (depth : Z) (data : bytes) (t : node), strong_ok find_powershell_strings -> 0 < depth -> scan_default pe_size xortool extra RegistryTable.decoder_modules kwdir depth data = Ok t -> n_val t = data /\ Forall (child_span_ok data) (n_kids t) /\ StronglySorted sib_lt (n_kids t).
+Proof. exact scan_default_spans_in_bounds_hyp. Qed.
+Print Assumptions C03_scan_default_if_ps_conforms.
+
+Theorem C03_scan_exclude_shell : forall pe_size : bytes -> Z, (forall b : bytes, 0 <= pe_size b) -> forall (xortool : bytes -> list bytes) (extra : label -> option (bytes -> res (list node))) (kwdir : Registry.dtree) (depth : Z) (data : bytes) (t : node), let ds := registry pe_size xortool extra RegistryTable.decoder_modules kwdir [] [s2b "shell"] in scan_r (run_all ds) depth data = Ok t -> exists a : anode, ref_scan (search_of (run_all ds)) depth data = Ok a /\ erase a = t /\ deep_ok (search_of (run_all ds)) (Z.to_nat depth) a.
+Proof. exact scan_exclude_shell_deep_ok. Qed.
+Print Assumptions C03_scan_exclude_shell.
+
+(* the carve-out is exact: find_powershell_strings does NOT conform (known finding F6) *)
+Theorem C03_F6_carve_out_exact : ~ strong_ok find_powershell_strings.
+Proof. exact find_powershell_strings_not_strong. Qed.
+Print Assumptions C03_F6_carve_out_exact.
+
+Theorem C03_F6_witness : exists h : node, find_powershell_strings DefaultTotal.f6_text = Ok [Node (s2b "shell.powershell") DefaultTotal.f6_text [] 0 103 []; h] /\ (n_st h, n_en h) = (68, 35) /\ blen DefaultTotal.f6_text = 103 /\ nonempty_val h = true /\ ~ hit_ok DefaultTotal.f6_text h.
+Proof. exact f6_hit_68_35. Qed.
+Print Assumptions C03_F6_witness.
+
+Theorem C03_pe_oracle_hypothesis_needed : ~ strong_ok (PathDec.find_pe_files (fun _ : bytes => -10)).
+Proof. exact pe_negative_size_not_strong. Qed.
+Print Assumptions C03_pe_oracle_hypothesis_needed.
 
 (* the root carries the unmodified input, empty type / obfuscation, span 0..len (any registry, any depth) *)
 Theorem C03_root : forall search depth data t, scan search depth data = Ok t ->
@@ -17,40 +86,9 @@ Proof.
 Qed.
 Print Assumptions C03_root.
 
-(* every child the scan attaches lies inside its parent's value, with start < end *)
-Theorem C03_spans : forall search d n t, wf_search search -> n_kids n = [] ->
-  scan_node search (S d) n = Ok t ->
-  n_val t = n_val n /\
-  Forall (fun c => 0 <= n_st c /\ n_st c < n_en c /\ n_en c <= blen (n_val t)) (n_kids t) /\
-  StronglySorted sib_lt (n_kids t).
-Proof. exact scan_children_spans. Qed.
-Print Assumptions C03_spans.
-
-(* ... at every nesting level and every depth: the annotated reference tree (which the engine's tree is the
-   erasure of, C06) satisfies deep_ok: each search pass places every node in bounds of its parent's value *)
-Theorem C03_all_levels : forall search, wf_search search -> forall d k a b n t,
-  k <> KCtx -> ref_scan_node search d k a b n = Ok t -> deep_ok search d t.
-Proof. exact ref_deep_ok. Qed.
-Print Assumptions C03_all_levels.
-
-(* nothing appears from nowhere: every node attached by a pass carries position, type, value and
-   obfuscation of a hit the registry reported on the searched value *)
-Theorem C03_nodes_from_hits : forall search d k a b n t,
-  n_kids n = [] -> ref_scan_node search (S d) k a b n = Ok t ->
-  forall x, In x (pass_nodes (a_kids t)) ->
-  exists h, In h (search (n_val n)) /\ nonempty_val h = true /\
-            n_st h = a_lo x /\ n_en h = a_hi x /\
-            n_ty h = n_ty (a_node x) /\ n_val h = n_val (a_node x) /\ n_obf h = n_obf (a_node x).
-Proof. exact attached_from_hit. Qed.
-Print Assumptions C03_nodes_from_hits.
-
-(* the header of a scanned node is never modified, only its child list *)
-Theorem C03_header_kept : forall search d n t, scan_node search d n = Ok t -> exists ks, t = set_kids n ks.
-Proof. exact scan_node_hdr. Qed.
-Print Assumptions C03_header_kept.
-
 (* the precondition is needed: a hit past the end of the value makes the real loop spin forever *)
 Example C03_out_of_bounds_hangs :
   scan (fun v => [Node (L"t") (L"x") [] 0 (blen v + 1) []]) 1 (L"ab") = Hang.
 Proof. vm_compute. reflexivity. Qed.
 Print Assumptions C03_out_of_bounds_hangs.
+
